@@ -1,4 +1,5 @@
 import OdmlModel.Model.Valid
+import OdmlModel.Model.ValidWriter
 import Driver.ValidCodec
 import Driver.Util
 import Driver.Loop
@@ -6,6 +7,18 @@ open Lean Drv
 
 namespace DrvC08
 open Valid DrvValid
+
+def decBackend : String → Except String Backend
+  | "XML" => pure .xml
+  | "JSON" => pure .json
+  | "YAML" => pure .yaml
+  | "RDF" => pure .rdf
+  | s => throw s!"unknown backend {s}"
+
+def encOutcome : SaveOutcome → Json
+  | .raised => jstr "raised"
+  | .refused => jstr "refused"
+  | .written => jstr "written"
 
 def handle (j : Json) : Except String Json := do
   let op ← getStr j "op"
@@ -16,6 +29,11 @@ def handle (j : Json) : Except String Json := do
   | "blocks_save" =>
     let d ← decDoc (← getVal j "node")
     pure (jbool (blocksSave d))
+  | "session" =>
+    -- one writer object, the documents handed to write_file one after the other
+    let b ← decBackend (← getStr j "parser")
+    let ds ← (← getArr j "nodes").toList.mapM decDoc
+    pure (jarr (((Writer.fresh b).session ds).map encOutcome))
   | "getok" =>
     let d := (← getStr j "dtype").toList
     let v ← decVal (← getVal j "v")
